@@ -194,4 +194,224 @@ theorem time_hms (h mi sc : Nat) (hh : h ≤ 23) (hm : mi ≤ 59) (hs' : sc ≤ 
     dir_two_H true _ _ _ a1 a2, dir_two_M true _ _ _ b1 b2, dir_two_S true _ _ _ c1 c2, r1, r2, a1, a2, b1, b2, c1, c2, eh, em, es, twoOk, hh, hm,
     lit_step, lit_nil, nil_nil, dir_nil, eqIcase, lowerA, foundToDT, Found.setNum, mkDT, dim, dimL]
 
+theorem d09_dch (n : Nat) (h : n < 10) : CT.test d09 (dch n) = true := by
+  rcases dch_cases n h with rfl | rfl | rfl | rfl | rfl | rfl | rfl | rfl | rfl | rfl <;> simp [CT.test, d09, dch]
+theorem decVal_dch (n : Nat) (h : n < 10) : decVal (dch n) = n := by
+  rcases dch_cases n h with rfl | rfl | rfl | rfl | rfl | rfl | rfl | rfl | rfl | rfl <;> simp [decVal, asciiDigit, dch]
+theorem dch_ne_space (n : Nat) (h : n < 10) : (dch n == ' ') = false := by
+  rcases dch_cases n h with rfl | rfl | rfl | rfl | rfl | rfl | rfl | rfl | rfl | rfl <;> simp [dch]
+
+/-- six fraction digits -/
+def frac6 (us : Nat) : List Char :=
+  [dch (us / 100000), dch (us / 10000 % 10), dch (us / 1000 % 10), dch (us / 100 % 10), dch (us / 10 % 10), dch (us % 10)]
+
+/-- `%f` on six ASCII digits: when the rest of the format accepts what follows, the directive takes all six -/
+theorem dir_f6 (full : Bool) (is : List FItem) (us : Nat) (hus : us ≤ 999999) (rest : List Char) (fd r : Found)
+    (hk : matchItems full is rest (fd.setNum 'f' us 6) = some r) :
+    matchItems full (.dir 'f' :: is) (frac6 us ++ rest) fd = some r := by
+  have h1 : us / 100000 < 10 := by omega
+  have h2 : us / 10000 % 10 < 10 := by omega
+  have h3 : us / 1000 % 10 < 10 := by omega
+  have h4 : us / 100 % 10 < 10 := by omega
+  have h5 : us / 10 % 10 < 10 := by omega
+  have h6 : us % 10 < 10 := by omega
+  have hv : (((((us / 100000) * 10 + us / 10000 % 10) * 10 + us / 1000 % 10) * 10 + us / 100 % 10) * 10 + us / 10 % 10) * 10 + us % 10 = us := by omega
+  simp [matchItems, numAlts, frac6, consumeAlt, List.findSome?, d09_dch, decVal_dch, dch_ne_space, h1, h2, h3, h4, h5, h6, hv, hk]
+
+theorem nil_any (xs : List Char) (fd : Found) : matchItems false [] xs fd = some fd := by
+  cases xs <;> simp [matchItems]
+
+theorem ws_rejects_char (full : Bool) (is : List FItem) (c : Char) (hc : c = ':' ∨ c = '.') (rest : List Char) (fd : Found) :
+    matchItems full (.ws :: is) (c :: rest) fd = none := by
+  rcases hc with rfl | rfl <;> simp [matchItems, wsPrefixLen, isWs, asciiDigit]
+
+/-- `%H:%M:%S.%f` on `hh:mm:ss.ffffff` (six fraction digits): exact to the microsecond -/
+theorem time_hms_us (h mi sc us : Nat) (hh : h ≤ 23) (hm : mi ≤ 59) (hs' : sc ≤ 59) (hus : us ≤ 999999) :
+    timeParser (pad2c h ++ [':'] ++ pad2c mi ++ [':'] ++ pad2c sc ++ ['.'] ++ frac6 us) =
+      .ok { y := 1900, mo := 1, d := 1, h := h, mi := mi, s := sc, us := us } := by
+  have a1 : h / 10 < 10 := by omega
+  have a2 : h % 10 < 10 := by omega
+  have b1 : mi / 10 < 10 := by omega
+  have b2 : mi % 10 < 10 := by omega
+  have c1 : sc / 10 < 10 := by omega
+  have c2 : sc % 10 < 10 := by omega
+  have f6 : us % 10 < 10 := by omega
+  have eh : 10 * (h / 10) + h % 10 = h := by omega
+  have em : 10 * (mi / 10) + mi % 10 = mi := by omega
+  have es : 10 * (sc / 10) + sc % 10 = sc := by omega
+  have hs : stripWs (pad2c h ++ [':'] ++ pad2c mi ++ [':'] ++ pad2c sc ++ ['.'] ++ frac6 us) =
+      pad2c h ++ [':'] ++ pad2c mi ++ [':'] ++ pad2c sc ++ ['.'] ++ frac6 us := by
+    have := stripWs_digits (h / 10) a1 (us % 10) f6 ([dch (h % 10), ':', dch (mi / 10), dch (mi % 10), ':', dch (sc / 10), dch (sc % 10), '.',
+      dch (us / 100000), dch (us / 10000 % 10), dch (us / 1000 % 10), dch (us / 100 % 10), dch (us / 10 % 10)])
+    simpa [pad2c, frac6] using this
+  unfold timeParser
+  rw [hs]
+  have r1 : ∀ (full : Bool) (is : List FItem) (b : Nat) (rest : List Char) (fd : Found), b < 10 → matchItems full (.lit ':' :: is) (dch b :: rest) fd = none :=
+    fun full is b rest fd hb => lit_rejects_digit full ':' is b hb rest fd (Or.inl rfl)
+  have r1' : ∀ (full : Bool) (is : List FItem) (b : Nat) (rest : List Char) (fd : Found), b < 10 → matchItems full (.lit '.' :: is) (dch b :: rest) fd = none :=
+    fun full is b rest fd hb => lit_rejects_digit full '.' is b hb rest fd (Or.inr (Or.inl rfl))
+  have r2 : ∀ (c : Char) (rest : List Char) (fd : Found), matchItems true [] (c :: rest) fd = none := fun c rest fd => end_rejects _ _ _
+  have r3 : ∀ (is : List FItem) (b : Nat) (rest : List Char) (fd : Found), b < 10 → matchItems true (.ws :: is) (dch b :: rest) fd = none :=
+    fun is b rest fd hb => ws_rejects_digit true is b hb rest fd
+  have r4 : ∀ (is : List FItem) (rest : List Char) (fd : Found), matchItems true (.ws :: is) (':' :: rest) fd = none :=
+    fun is rest fd => ws_rejects_char true is ':' (Or.inl rfl) rest fd
+  have r5 : ∀ (is : List FItem) (rest : List Char) (fd : Found), matchItems true (.ws :: is) ('.' :: rest) fd = none :=
+    fun is rest fd => ws_rejects_char true is '.' (Or.inr rfl) rest fd
+  have nh : ¬ 23 < h := by omega
+  have nm : ¬ 59 < mi := by omega
+  have ns : ¬ 59 < sc := by omega
+  have s61 : sc ≤ 61 := by omega
+  have kf : ∀ fd : Found, matchItems true [FItem.dir 'f'] (frac6 us) fd = some (fd.setNum 'f' us 6) := by
+    intro fd
+    have := dir_f6 true [] us hus [] fd (fd.setNum 'f' us 6) (nil_nil _ _)
+    simpa using this
+  have kf' : ∀ fd : Found, matchItems false [FItem.dir 'f'] (frac6 us) fd = some (fd.setNum 'f' us 6) := by
+    intro fd
+    have := dir_f6 false [] us hus [] fd (fd.setNum 'f' us 6) (nil_any _ _)
+    simpa using this
+  have hfrac : [dch (us / 100000), dch (us / 10000 % 10), dch (us / 1000 % 10), dch (us / 100 % 10), dch (us / 10 % 10), dch (us % 10)] = frac6 us := rfl
+  simp [ws_nil, nh, nm, ns, s61, Gen.timeDirectivesC, timeParserGo, dpStrptimeC, strptimeC, parseFmt, numAlts, nameAlts, isWs, pad2c,
+    dir_two_H _ _ _ _ a1 a2, dir_two_M _ _ _ _ b1 b2, dir_two_S _ _ _ _ c1 c2, dir_two_I _ _ _ _ a1 a2, r1, r1', r2, r3, r4, r5,
+    a1, a2, b1, b2, c1, c2, eh, em, es, twoOk, hh, hm,
+    lit_step, lit_nil, nil_nil, dir_nil, eqIcase, lowerA, foundToDT, Found.setNum, mkDT, dim, dimL, hfrac, kf, kf',
+    timeMatcherMicros, timeMatcherItems, List.any]
+
+/-- a one-digit hour followed by ':' : the two-digit alternatives cannot apply -/
+theorem dir_one_H (full : Bool) (is : List FItem) (a : Nat) (ha : a < 10) (rest : List Char) (fd : Found) :
+    matchItems full (.dir 'H' :: is) (dch a :: ':' :: rest) fd = matchItems full is (':' :: rest) (fd.setNum 'H' a 1) := by
+  rcases dch_cases a ha with rfl | rfl | rfl | rfl | rfl | rfl | rfl | rfl | rfl | rfl <;>
+  (simp only [dch]
+   simp [matchItems, numAlts, consumeAlt, CT.test, isDecDigit, asciiDigit, decVal, List.findSome?]
+   try (split <;> simp_all))
+
+theorem dir_one_I (full : Bool) (is : List FItem) (a : Nat) (ha : a < 10) (rest : List Char) (fd : Found) :
+    matchItems full (.dir 'I' :: is) (dch a :: ':' :: rest) fd =
+      if 1 ≤ a then matchItems full is (':' :: rest) (fd.setNum 'I' a 1) else none := by
+  rcases dch_cases a ha with rfl | rfl | rfl | rfl | rfl | rfl | rfl | rfl | rfl | rfl <;>
+  (simp only [dch]
+   simp [matchItems, numAlts, consumeAlt, CT.test, isDecDigit, asciiDigit, decVal, d19, List.findSome?]
+   try (split <;> simp_all))
+
+/-- the AM/PM marker at the end of the string -/
+theorem dir_p_end (isPm : Bool) (fd : Found) :
+    matchItems true [.dir 'p'] (if isPm then ['p', 'm'] else ['a', 'm']) fd = some (fd.setName 'p' (if isPm then 1 else 0)) := by
+  cases isPm <;> simp [matchItems, numAlts, nameAlts, sortLenDescIdx, sortLenDescIdx.ins, ampmC, consumeName, eqIcase, lowerA, List.findSome?, List.zipIdx]
+
+/-- format whitespace on one space followed by a letter -/
+theorem ws_one (full : Bool) (is : List FItem) (c : Char) (hc : c = 'a' ∨ c = 'p') (rest : List Char) (fd : Found) :
+    matchItems full (.ws :: is) (' ' :: c :: rest) fd = matchItems full is (c :: rest) fd := by
+  rcases hc with rfl | rfl <;> simp [matchItems, wsPrefixLen, isWs, asciiDigit, List.range, List.range.loop]
+
+def hour12c (h12 : Nat) : List Char := if 10 ≤ h12 then [dch 1, dch (h12 - 10)] else [dch h12]
+def meridC (isPm : Bool) : List Char := if isPm then ['p', 'm'] else ['a', 'm']
+def hour24 (h12 : Nat) (isPm : Bool) : Nat := if isPm then (if h12 = 12 then 12 else h12 + 12) else (if h12 = 12 then 0 else h12)
+
+theorem stripWs_digit_m (a : Nat) (ha : a < 10) (mid : List Char) :
+    stripWs (dch a :: (mid ++ ['m'])) = dch a :: (mid ++ ['m']) := by
+  have hmW : isWs 'm' = false := by simp [isWs, asciiDigit]
+  unfold stripWs
+  simp [List.dropWhile, isWs_dch a ha, hmW, List.reverse_cons]
+
+/-- `%I:%M %p` on `h:mm am|pm` (hour 1..12 without padding, as the family renders it) -/
+theorem time_12h (h12 mi : Nat) (isPm : Bool) (h1 : 1 ≤ h12) (h2 : h12 ≤ 12) (hm : mi ≤ 59) :
+    timeParser (hour12c h12 ++ [':'] ++ pad2c mi ++ [' '] ++ meridC isPm) =
+      .ok { y := 1900, mo := 1, d := 1, h := hour24 h12 isPm, mi := mi } := by
+  have b1 : mi / 10 < 10 := by omega
+  have b2 : mi % 10 < 10 := by omega
+  have em : 10 * (mi / 10) + mi % 10 = mi := by omega
+  have nm : ¬ 59 < mi := by omega
+  have r1 : ∀ (full : Bool) (is : List FItem) (b : Nat) (rest : List Char) (fd : Found), b < 10 → matchItems full (.lit ':' :: is) (dch b :: rest) fd = none :=
+    fun full is b rest fd hb => lit_rejects_digit full ':' is b hb rest fd (Or.inl rfl)
+  have r2 : ∀ (c : Char) (rest : List Char) (fd : Found), matchItems true [] (c :: rest) fd = none := fun c rest fd => end_rejects _ _ _
+  have r3 : ∀ (is : List FItem) (b : Nat) (rest : List Char) (fd : Found), b < 10 → matchItems true (.ws :: is) (dch b :: rest) fd = none :=
+    fun is b rest fd hb => ws_rejects_digit true is b hb rest fd
+  have pe := dir_p_end isPm
+  have nq1 : ¬ 23 < (if h12 = 12 then 0 else h12) := by split <;> omega
+  have nq2 : ¬ 23 < (if h12 = 12 then h12 else h12 + 12) := by split <;> omega
+  have nq3 : ¬ 23 < (if ¬ h12 = 12 then h12 + 12 else h12) := by split <;> omega
+  by_cases hten : 10 ≤ h12
+  · have a2 : h12 - 10 < 10 := by omega
+    have e12 : 10 * 1 + (h12 - 10) = h12 := by omega
+    have hs : stripWs (hour12c h12 ++ [':'] ++ pad2c mi ++ [' '] ++ meridC isPm) = hour12c h12 ++ [':'] ++ pad2c mi ++ [' '] ++ meridC isPm := by
+      have := stripWs_digit_m 1 (by decide) ([dch (h12 - 10), ':', dch (mi / 10), dch (mi % 10), ' '] ++ (if isPm then ['p'] else ['a']))
+      cases isPm <;> simpa [hour12c, hten, pad2c, meridC] using this
+    unfold timeParser
+    rw [hs]
+    have nh : ¬ 23 < h12 := by omega
+    cases isPm <;>
+    simp [hour12c, hten, meridC, hour24, ws_nil, nh, nm, Gen.timeDirectivesC, timeParserGo, dpStrptimeC, strptimeC, parseFmt, numAlts, nameAlts, isWs, pad2c,
+      dir_two_H _ _ _ _ (by decide : 1 < 10) a2, dir_two_I _ _ _ _ (by decide : 1 < 10) a2, dir_two_M _ _ _ _ b1 b2, r1, r2, r3, a2, b1, b2, e12, em, twoOk, h1, h2, hm,
+      lit_step, lit_nil, nil_nil, dir_nil, eqIcase, lowerA, foundToDT, Found.setNum, Found.setName, mkDT, dim, dimL, ws_one, pe, List.any, nq1, nq2, nq3] at pe ⊢ <;>
+    simp [pe, foundToDT, Found.setName, mkDT, dim, dimL, nm, nq1, nq2, nq3] <;> (first | omega | (split <;> omega) | (intro h; omega))
+  · have a1 : h12 < 10 := by omega
+    have hs : stripWs (hour12c h12 ++ [':'] ++ pad2c mi ++ [' '] ++ meridC isPm) = hour12c h12 ++ [':'] ++ pad2c mi ++ [' '] ++ meridC isPm := by
+      have := stripWs_digit_m h12 a1 ([':', dch (mi / 10), dch (mi % 10), ' '] ++ (if isPm then ['p'] else ['a']))
+      cases isPm <;> simpa [hour12c, hten, pad2c, meridC] using this
+    unfold timeParser
+    rw [hs]
+    have nh : ¬ 23 < h12 := by omega
+    have n12 : h12 ≠ 12 := by omega
+    cases isPm <;>
+    simp [hour12c, hten, meridC, hour24, ws_nil, nh, nm, n12, Gen.timeDirectivesC, timeParserGo, dpStrptimeC, strptimeC, parseFmt, numAlts, nameAlts, isWs, pad2c,
+      dir_one_H _ _ _ a1, dir_one_I _ _ _ a1, dir_two_M _ _ _ _ b1 b2, r1, r2, r3, a1, b1, b2, em, twoOk, h1, h2, hm,
+      lit_step, lit_nil, nil_nil, dir_nil, eqIcase, lowerA, foundToDT, Found.setNum, Found.setName, mkDT, dim, dimL, ws_one, List.any, nq1, nq2, nq3] at pe ⊢ <;>
+    simp [pe, foundToDT, Found.setName, mkDT, dim, dimL, nm, nq1, nq2, nq3] <;> (first | omega | (split <;> omega) | (intro h; omega))
+
+def frac3 (ms : Nat) : List Char := [dch (ms / 100), dch (ms / 10 % 10), dch (ms % 10)]
+
+/-- `%f` on exactly three ASCII digits at the end of the string -/
+theorem dir_f3_end (full : Bool) (ms : Nat) (hms : ms ≤ 999) (fd : Found) :
+    matchItems full [.dir 'f'] (frac3 ms) fd = some (fd.setNum 'f' ms 3) := by
+  have h1 : ms / 100 < 10 := by omega
+  have h2 : ms / 10 % 10 < 10 := by omega
+  have h3 : ms % 10 < 10 := by omega
+  have hv : ((ms / 100) * 10 + ms / 10 % 10) * 10 + ms % 10 = ms := by omega
+  cases full <;>
+  simp [matchItems, numAlts, frac3, consumeAlt, List.findSome?, d09_dch, decVal_dch, dch_ne_space, h1, h2, h3, hv]
+
+/-- `%H:%M:%S.%f` on `hh:mm:ss.fff` (three fraction digits): milliseconds, exactly -/
+theorem time_hms_ms (h mi sc ms : Nat) (hh : h ≤ 23) (hm : mi ≤ 59) (hs' : sc ≤ 59) (hms : ms ≤ 999) :
+    timeParser (pad2c h ++ [':'] ++ pad2c mi ++ [':'] ++ pad2c sc ++ ['.'] ++ frac3 ms) =
+      .ok { y := 1900, mo := 1, d := 1, h := h, mi := mi, s := sc, us := ms * 1000 } := by
+  have a1 : h / 10 < 10 := by omega
+  have a2 : h % 10 < 10 := by omega
+  have b1 : mi / 10 < 10 := by omega
+  have b2 : mi % 10 < 10 := by omega
+  have c1 : sc / 10 < 10 := by omega
+  have c2 : sc % 10 < 10 := by omega
+  have f3 : ms % 10 < 10 := by omega
+  have eh : 10 * (h / 10) + h % 10 = h := by omega
+  have em : 10 * (mi / 10) + mi % 10 = mi := by omega
+  have es : 10 * (sc / 10) + sc % 10 = sc := by omega
+  have hs : stripWs (pad2c h ++ [':'] ++ pad2c mi ++ [':'] ++ pad2c sc ++ ['.'] ++ frac3 ms) =
+      pad2c h ++ [':'] ++ pad2c mi ++ [':'] ++ pad2c sc ++ ['.'] ++ frac3 ms := by
+    have := stripWs_digits (h / 10) a1 (ms % 10) f3 ([dch (h % 10), ':', dch (mi / 10), dch (mi % 10), ':', dch (sc / 10), dch (sc % 10), '.',
+      dch (ms / 100), dch (ms / 10 % 10)])
+    simpa [pad2c, frac3] using this
+  unfold timeParser
+  rw [hs]
+  have r1 : ∀ (full : Bool) (is : List FItem) (b : Nat) (rest : List Char) (fd : Found), b < 10 → matchItems full (.lit ':' :: is) (dch b :: rest) fd = none :=
+    fun full is b rest fd hb => lit_rejects_digit full ':' is b hb rest fd (Or.inl rfl)
+  have r1' : ∀ (full : Bool) (is : List FItem) (b : Nat) (rest : List Char) (fd : Found), b < 10 → matchItems full (.lit '.' :: is) (dch b :: rest) fd = none :=
+    fun full is b rest fd hb => lit_rejects_digit full '.' is b hb rest fd (Or.inr (Or.inl rfl))
+  have r2 : ∀ (c : Char) (rest : List Char) (fd : Found), matchItems true [] (c :: rest) fd = none := fun c rest fd => end_rejects _ _ _
+  have r3 : ∀ (is : List FItem) (b : Nat) (rest : List Char) (fd : Found), b < 10 → matchItems true (.ws :: is) (dch b :: rest) fd = none :=
+    fun is b rest fd hb => ws_rejects_digit true is b hb rest fd
+  have r4 : ∀ (is : List FItem) (rest : List Char) (fd : Found), matchItems true (.ws :: is) (':' :: rest) fd = none :=
+    fun is rest fd => ws_rejects_char true is ':' (Or.inl rfl) rest fd
+  have r5 : ∀ (is : List FItem) (rest : List Char) (fd : Found), matchItems true (.ws :: is) ('.' :: rest) fd = none :=
+    fun is rest fd => ws_rejects_char true is '.' (Or.inr rfl) rest fd
+  have nh : ¬ 23 < h := by omega
+  have nm : ¬ 59 < mi := by omega
+  have ns : ¬ 59 < sc := by omega
+  have s61 : sc ≤ 61 := by omega
+  have kf := dir_f3_end true ms hms
+  have kf' := dir_f3_end false ms hms
+  have hfrac : [dch (ms / 100), dch (ms / 10 % 10), dch (ms % 10)] = frac3 ms := rfl
+  simp [ws_nil, nh, nm, ns, s61, Gen.timeDirectivesC, timeParserGo, dpStrptimeC, strptimeC, parseFmt, numAlts, nameAlts, isWs, pad2c,
+    dir_two_H _ _ _ _ a1 a2, dir_two_M _ _ _ _ b1 b2, dir_two_S _ _ _ _ c1 c2, dir_two_I _ _ _ _ a1 a2, r1, r1', r2, r3, r4, r5,
+    a1, a2, b1, b2, c1, c2, eh, em, es, twoOk, hh, hm,
+    lit_step, lit_nil, nil_nil, dir_nil, eqIcase, lowerA, foundToDT, Found.setNum, mkDT, dim, dimL, hfrac, kf, kf',
+    timeMatcherMicros, timeMatcherItems, List.any]
+
 end DP
